@@ -140,6 +140,8 @@ def run_hp(case, ctx):
                 labels.add("clipped")
             if p[4] == "int":
                 labels.add("int-param")
+            if (p[4] == "int") != (isinstance(p[0], int) and isinstance(p[1], int)):
+                labels.add("bound-type-differs-from-dtype")
         # a learn step still works with the mutated values (the agent "subsequently uses" them)
     for l in labels:
         ctx.label(l)
@@ -157,10 +159,15 @@ def hp_strategy(draw, tier):
     for nm in names["float"]:
         lo = draw(st.sampled_from([1e-5, 1e-4, 1e-3]))
         hi = lo * draw(st.sampled_from([1.5, 10.0, 1000.0]))
+        if draw(st.integers(0, 4)) == 0:
+            hi = 1  # a bound written as a Python int for a float hyper-parameter (min/max are only annotated as float)
         params[nm] = [lo, hi, draw(st.sampled_from([0.5, 0.8, 0.95])), draw(st.sampled_from([1.05, 1.2, 2.0])), "float"]
     for nm in draw(st.lists(st.sampled_from(names["int"]), unique=True, max_size=2)):
         lo = draw(st.integers(1, 4)) if nm != "batch_size" else draw(st.integers(2, 4))
         hi = lo + draw(st.integers(1, 12))
+        # bounds of an int hyper-parameter written as floats (e.g. max=1e2) are legal too
+        lo = float(lo) if draw(st.integers(0, 3)) == 0 else lo
+        hi = float(hi) if draw(st.integers(0, 3)) == 0 else hi
         params[nm] = [lo, hi, draw(st.sampled_from([0.5, 0.8])), draw(st.sampled_from([1.2, 2.0])), "int"]
     n = draw(st.integers(1, 4))
     init = [{nm: draw(st.floats(0, 1)) for nm in params} for _ in range(n)]
@@ -189,5 +196,5 @@ PROPERTY = Property(
     ],
     assumptions=["populations share one HyperparameterConfig object exactly as agilerl.utils.utils.create_population passes it",
                  "relative tolerance 1e-12 on the expected value"],
-    wanted_labels=["clipped", "int-param", "lr-mutated", "shared-config", "own-config", "selection-between-rounds"],
+    wanted_labels=["clipped", "int-param", "lr-mutated", "shared-config", "own-config", "selection-between-rounds", "bound-type-differs-from-dtype"],
 )
